@@ -774,4 +774,3 @@ func (a *Analysis) CheckSingleRoot() []string {
 	sort.Strings(bad)
 	return bad
 }
-
